@@ -14,6 +14,7 @@ import Gama.Lemmas.XmlCovSite
 import Gama.Lemmas.ProjectEquationsGlue
 import Gama.Lemmas.ProjectEquationsUnknowns
 import Gama.Lemmas.ProjectEquationsOri
+import Gama.Lemmas.ProjectEquationsTotal
 import Gama.Lemmas.ProjectEquationsGapExample
 namespace Gama.PE
 open Gama Gama.Lin
@@ -89,6 +90,102 @@ theorem pe_ind_le {K : Type} [TrigScalar K] (net : PE.Net K) (np : Ls.Net.NetPro
     · cases hf
     · cases ty <;> rcases ori with _ | k <;> simp only at hf <;> try cases hf
       show j + 1 ≤ np.n
+      omega
+
+/-- a coordinate x / y of a point that is NOT `free_xy()` (fixed or unused) has index 0 after the pass: the
+    prologue cleared it (`Cleared`), and every index the pass hands out is handed to a name touched by a member
+    function of `LocalLinearization` (`passFrom_keys`), which touches only coordinates guarded by `free_xy()`
+    (`shape_of_ok`, `shapeB_free`) -/
+theorem Fresh.notfree_xy_zero {K : Type} [TrigScalar K] {net : PE.Net K} {a : Asm K} {b : PassOut K}
+    (F : Fresh net a b) (i : Nat) (c : Coord) (hc : c = .x ∨ c = .y) (hcl : Cleared net ⟨i, c⟩)
+    (hnf : (ptAt net i).free_xy = false) : a.idx.get ⟨i, c⟩ = 0 := by
+  rw [F.agree _ hcl]
+  by_contra h
+  have hk : (⟨i, c⟩ : Unk) ∈ b.idx.tab.map Prod.fst := List.mem_map_of_mem (IdxState.get_mem h)
+  rcases passFrom_keys _ _ _ _ _ F.pass _ hk with h0 | ⟨ob, hob, out, ho, r, c', he, hv⟩
+  · simp [IdxState.init] at h0
+  have hs : (false, r, c') ∈ kindShape ob.kind ((sigmaOf net).view ob) := by
+    rw [← shape_of_ok _ _ _ _ ho, evShape_eq_map]
+    exact List.mem_map.mpr ⟨Ev.touch r c', he, rfl⟩
+  have hf := shapeB_free _ _ _ _ _ _ _ hs
+  rw [name_eq] at hv
+  injection hv with hi hcc
+  subst hcc
+  subst hi
+  simp only at hf
+  have hfr : (ptAt net (roleId ob r)).free_xy = true := by
+    cases r <;> rcases hc with rfl | rfl <;>
+      first
+      | (simp [freeB] at hf; done)
+      | simpa [freeB, sigmaOf, Lin.Net.view, roleId, kindShape] using hf
+  rw [hfr] at hnf
+  cases hnf
+
+open Gama.CovBand in
+/-- every element of `ind[]` is at least 1.  `index_x()`, `index_z()`: the writer's own tests (`bxy`, `bz`).
+    `index_y()` (appended under the test of `index_x()` only): the point is `active_xy()`; if it is `free_xy()`
+    (free or constrained), `singular_coords` returned `false` in the last inner call, so BOTH indexes are non-zero
+    (`MinX.singularFrom_false`: a point with `index_x() == 0 || index_y() == 0` would have been `set_unused_xy()` and
+    the call repeated); if it is fixed, `index_x()` is 0 (`Fresh.notfree_xy_zero`) and `bxy` is false.
+    Orientations: `index_orientation() = i = j + 1`. -/
+theorem pe_ind_pos {K : Type} [TrigScalar K] (net : PE.Net K) (np : Ls.Net.NetProblem K) (u : Unknowns K)
+    (h : projectEquations net = .ok (np, u)) (hori : ∀ o ∈ orisOf u, o.standpointIndex = o.i) :
+    ∀ k ∈ indList (xmlPtsOf u) (orisOf u), 1 ≤ k := by
+  obtain ⟨net', a, F⟩ := pe_final net np u h
+  obtain ⟨b, Fr⟩ := assemble_fresh net' a F.asm
+  obtain ⟨hh, _, hns⟩ := F.nosing
+  have hsf := MinX.singularFrom_false (ptsOf net') _ _ (ptsOf net') 0 (MinX.TailAt.self _) hns
+  intro k hk
+  rcases List.mem_append.mp hk with hk | hk
+  · obtain ⟨p, hp, hkp⟩ := List.mem_flatMap.mp hk
+    obtain ⟨⟨pt, i⟩, hpi, rfl⟩ := List.mem_map.mp hp
+    have hget : u.net.points[i]? = some pt := List.mem_zipIdx_iff_getElem?.mp hpi
+    rw [F.u_net] at hget
+    have hget' : net'.points[i]? = some pt := hget
+    have hpt : ptAt net' i = pt.pt := ptAt_of_get net' i pt hget'
+    have key : ∀ (c : Bool) (l : List Nat), k ∈ (if c = true then l else []) → c = true ∧ k ∈ l := by
+      intro c l h; cases c <;> simp_all
+    simp only [ptInds, Pt.bxy, Pt.bz, List.mem_append] at hkp
+    rcases hkp with hkp | hkp
+    · obtain ⟨hb, hkp⟩ := key _ _ hkp
+      simp only [Bool.and_eq_true, bne_iff_ne, ne_eq] at hb
+      obtain ⟨hact, hx0⟩ := hb
+      simp only [List.mem_cons, List.not_mem_nil, or_false] at hkp
+      rcases hkp with rfl | rfl
+      · exact Nat.pos_of_ne_zero hx0
+      · apply Nat.pos_of_ne_zero
+        rw [F.u_net] at hx0 ⊢
+        show a.idx.get ⟨i, .y⟩ ≠ 0
+        have hx0' : a.idx.get ⟨i, .x⟩ ≠ 0 := hx0
+        have hclx : Cleared net' ⟨i, .x⟩ := by
+          right
+          show Gen.Lin.resetGuard (ptAt net' i) = true
+          rw [hpt]; exact (resetGuard_of_active _).1 hact
+        by_cases hfree : (ptAt net' i).free_xy = true
+        · have hq : (ptsOf net')[i]? = some ⟨pt.id, cstat pt.pt.sxy, cstat pt.pt.sz⟩ := by
+            unfold ptsOf; rw [List.getElem?_map, hget']; rfl
+          rw [hpt] at hfree
+          have hfr : pt.pt.sxy.isFree = true := hfree
+          have hne : cstat pt.pt.sxy ≠ .fixed := by
+            cases hs : pt.pt.sxy <;> simp_all [cstat, Status.isFree]
+          have hac : (cstat pt.pt.sxy).active = true := by rw [active_cstat]; exact hact
+          have := (hsf i _ hq hne hac).2
+          simpa [idxFn, toLin] using this
+        · exact absurd (Fr.notfree_xy_zero i .x (Or.inl rfl) hclx (by simpa using hfree)) hx0'
+    · obtain ⟨hb, hkp⟩ := key _ _ hkp
+      simp only [Bool.and_eq_true, bne_iff_ne, ne_eq] at hb
+      simp only [List.mem_cons, List.not_mem_nil, or_false] at hkp
+      subst hkp
+      exact Nat.pos_of_ne_zero hb.2
+  · obtain ⟨o, ho, rfl⟩ := List.mem_map.mp hk
+    rw [hori o ho]
+    obtain ⟨ej, hej, hf⟩ := List.mem_filterMap.mp ho
+    rcases ej with ⟨e', j⟩
+    simp only at hf
+    rcases e' with _ | ⟨pid, ty, ori⟩
+    · cases hf
+    · cases ty <;> rcases ori with _ | k <;> simp only at hf <;> try cases hf
+      show 1 ≤ j + 1
       omega
 end Gama.PE
 
